@@ -106,4 +106,17 @@ theorem isHandler_of_mem {es : List Entry} {e : Entry} (he : e ∈ es)
   simp only [List.any_eq_true]
   exact ⟨e, he, by simpa using hne⟩
 
+/-- `*` is the last token of every residual -/
+def anyLast : List Tok → Bool
+  | [] => true
+  | .any :: ts => ts.isEmpty
+  | _ :: ts => anyLast ts
+
+def AnyLastR (r : R) : Prop := ∀ x ∈ r, anyLast x.1 = true
+
+theorem anyLastR_deriv {t : Tok} {r : R} (h : AnyLastR r) : AnyLastR (deriv t r) := by
+  intro ⟨ts, e⟩ hx
+  have := h _ (mem_deriv.mp hx)
+  cases t <;> simp_all [anyLast]
+
 end Router.Spec
